@@ -302,6 +302,15 @@ func (r *Report) writeEvidence(verif string, nd, nviol, nknown int) {
 	for k, v := range r.Extra {
 		cov[k] = v
 	}
+	if r.Assumptions == nil {
+		r.Assumptions = []string{}
+	}
+	if r.Controls == nil {
+		r.Controls = []string{}
+	}
+	if r.Fail == nil {
+		r.Fail = []string{}
+	}
 	ev := map[string]interface{}{
 		"property_id": r.Prop,
 		"tier":        r.Tier,
